@@ -33,6 +33,10 @@ class RebuildProp(Prop):
     def mc(self, tier):
         return [{"module": "MapPieces.tla", "cfg": "MC_MapPieces.cfg",
                  "what": "_map_pieces (fixed variant): piece -> file ranges equal the stream slices, all size vectors"},
+                {"module": "MapPieces.tla", "cfg": "MC_MapPieces_5files.cfg", "tier": "thorough",
+                 "what": "5 files, sizes 0..4"},
+                {"module": "FindMatches.tla", "cfg": "MC_FindMatches_3files.cfg", "tier": "thorough", "timeout": 3000,
+                 "what": "3 files, sizes 0..3, up to 2 candidates each of 5 classes: 1.4 M scenarios"},
                 {"module": "MapPieces.tla", "cfg": "MC_MapPieces_code.cfg", "expect": "fail",
                  "what": "_map_pieces at the pinned commit: file ending exactly on a piece boundary is used again"},
                 {"module": "FindMatches.tla", "cfg": "MC_FindMatches.cfg",
@@ -90,7 +94,7 @@ class C13(RebuildProp):
             "candidate, or ends exactly on a piece boundary, or is empty; distinct by all of these")
 
     def cases(self, tier, rng):
-        n = 1500 if tier == "thorough" else 260
+        n = 5000 if tier == "thorough" else 260
         out = []
         for k in range(n):
             v = (1, 2, 3)[k % 3]
@@ -169,7 +173,7 @@ class C14(RebuildProp):
             "repeat); non-trivial = some destination file pre-exists or some file has only decoys; distinct by all")
 
     def cases(self, tier, rng):
-        n = 1500 if tier == "thorough" else 260
+        n = 5000 if tier == "thorough" else 260
         out = []
         pres = ["absent", "correct", "wrong_full", "shorter", "unrelated"]
         for k in range(n):
